@@ -276,6 +276,15 @@ def check(case):
     except Exception as exc:  # noqa: BLE001
         out.fail("construct", type(exc).__name__, f"{model} {params}: {exc!r}")
         return out
+    if case.get("decoy", True):
+        # another generator of the same class over the same bloc names but different numbers is
+        # built (and dropped) before g is used: g's output is a function of g's own parameters
+        dec = G.decoy(params)
+        try:
+            with R.owned(seed + 1) as _:
+                G.make(cls_name, dec, **extra)
+        except Exception:  # noqa: BLE001  (the decoy's own validity is not the subject)
+            pass
     kw = {}
     if model == "slate_BradleyTerry_MCMC":
         kw["deterministic"] = False
@@ -339,6 +348,18 @@ def check(case):
     v2, exc2 = gen(fn, N, by_bloc=False, **kw)
     if exc2 is not None or rmap(v2) != rmap(agg):
         out.fail("aggregate", "by_bloc_flag_changes_result", f"{exc2!r}")
+    # the same object asked again for a different N: again exactly that size, blocs adding up
+    # (a small N, but not below the number of voter types: that regime is finding F15's)
+    N3 = n_types if N != n_types else n_types + 1
+    v3, exc3 = gen(fn, N3, by_bloc=True, **kw)
+    if exc3 is not None:
+        out.fail("reuse", type(exc3).__name__, f"{model}: generate_profile({N3}) after generate_profile({N}): {exc3!r}")
+    else:
+        by3, agg3 = v3
+        if agg3.total_ballot_wt != N3 or sum((by3[b].total_ballot_wt for b in blocs), Fraction(0)) != N3:
+            out.fail("reuse", "size_after_earlier_call",
+                     f"{model}: generate_profile({N3}) after generate_profile({N}) on the same object: aggregate weight "
+                     f"{agg3.total_ballot_wt}, bloc weights {[str(by3[b].total_ballot_wt) for b in blocs]}")
     # Huntington-Hill
     if model in ("AlternatingCrossover", "CambridgeSampler"):
         types, alloc = [], []
